@@ -42,7 +42,7 @@ package ext
 //@ func ParseInt
 //@   trusted
 //@   modifies ghost.errMade at 0
-//@   ensures result1 == nil && base == 10 ==> result0 == ifun(atoi, s)
+//@   ensures result1 == nil && base == 10 && bitSize == 64 ==> result0 == ifun(atoi, s)
 //@   ensures result1 != nil ==> ghost(errMade, 0) == 1
 //@   ensures result1 == nil ==> ghost(errMade, 0) == old(ghost(errMade, 0))
 
